@@ -5,7 +5,8 @@ Import ListNotations.
 Local Open Scope nat_scope.
 
 (* ------------------------------------------------------------------ what a step does to src / mn / tr *)
-Definition is_src_ev (e : tev) : bool := match e with TPrep _ | TStart _ | TEnd _ _ => true | _ => false end.
+Definition is_src_ev (e : tev) : bool :=
+  match e with TPrep _ | TStart _ | TEnd _ _ | TPrepFail _ => true | _ => false end.
 Definition src_evs (p : list tev) : list tev := filter is_src_ev p.
 
 Lemma tr_set_node s n x : tr (set_node s n x) = tr s. Proof. reflexivity. Qed.
@@ -35,7 +36,7 @@ Qed.
 
 (* every step only PREPENDS events to the trace, and the source state changes only with its own actions *)
 Definition src_action (a : action) : bool :=
-  match a with SrcReturnNil | SrcReturnErr | SrcRestart => true | _ => false end.
+  match a with SrcReturnNil | SrcReturnErr | SrcRestart | SrcSetupFail => true | _ => false end.
 
 Ltac fin :=
   cbn; repeat split; intros; try discriminate;
@@ -47,17 +48,20 @@ Ltac fin :=
 Lemma step_trace nt T s a s' :
   step nt T s a = Ok s' ->
   exists evs, tr s' = evs ++ tr s
-    /\ (src_action a = false -> src s' = src s /\ src_evs evs = [])
+    /\ (src_action a = false ->
+        src s' = src s /\ src_evs evs = []
+        /\ (emitted evs = [] \/ exists e k, a = SrcEmit e /\ src s = SRunning k /\ evs = [TEmit e]))
     /\ (forall k, a = SrcReturnNil -> src s = SRunning k -> src s' = SClosed /\ evs = [TEnd k true])
     /\ (forall k, a = SrcReturnErr -> src s = SRunning k -> src s' = SSleeping k /\ evs = [TEnd k false])
-    /\ (forall k, a = SrcRestart -> src s = SSleeping k -> src s' = SRunning (S k) /\ evs = [TStart (S k); TPrep (S k)]).
+    /\ (forall k, a = SrcRestart -> src s = SSleeping k -> src s' = SRunning (S k) /\ evs = [TStart (S k); TPrep (S k)])
+    /\ (forall k, a = SrcSetupFail -> src s = SSleeping k -> src s' = SDead /\ evs = [TPrepFail (S k)]).
 Proof.
   destruct a; cbn [step]; intros H.
-  - (* SrcEmit *) destruct (src s) as [k|k|] eqn:Es; try discriminate. destruct (mn s); try discriminate.
-    inversion H; subst. exists [TEmit e]. fin.
-  - destruct (src s) as [k|k|] eqn:Es; try discriminate. inversion H; subst. exists [TEnd k true]. fin.
-  - destruct (src s) as [k|k|] eqn:Es; try discriminate. inversion H; subst. exists [TEnd k false]. fin.
-  - destruct (src s) as [k|k|] eqn:Es; try discriminate. inversion H; subst. exists [TStart (S k); TPrep (S k)]. fin.
+  - (* SrcEmit *) destruct (src s) as [k|k| |] eqn:Es; try discriminate. destruct (mn s); try discriminate.
+    inversion H; subst. exists [TEmit e]. fin. right. eauto.
+  - destruct (src s) as [k|k| |] eqn:Es; try discriminate. inversion H; subst. exists [TEnd k true]. fin.
+  - destruct (src s) as [k|k| |] eqn:Es; try discriminate. inversion H; subst. exists [TEnd k false]. fin.
+  - destruct (src s) as [k|k| |] eqn:Es; try discriminate. inversion H; subst. exists [TStart (S k); TPrep (S k)]. fin.
   - (* MainSend *) destruct (mn s) as [| it rs | | |] eqn:Em; try discriminate. destruct rs as [|r rs]; [discriminate|].
     destruct (try_send nt s r it) as [s1| |] eqn:Et; try discriminate.
     apply try_send_frame in Et as (Ht & Hs & _). inversion H; subst. exists []. cbn. rewrite Ht, Hs. fin.
@@ -98,6 +102,8 @@ Proof.
     destruct pend as [|[c it] rest]; [discriminate|].
     destruct (try_send nt s c it) as [s1| |] eqn:Et; try discriminate.
     apply try_send_frame in Et as (Ht & Hs & _). inversion H; subst. exists []; cbn. rewrite Ht, Hs. fin.
+  - (* SrcSetupFail *)
+    destruct (src s) as [k|k| |] eqn:Es; try discriminate. inversion H; subst. exists [TPrepFail (S k)]. fin.
 Qed.
 
 (* ------------------------------------------------------------------ C18: the history of source incarnations *)
@@ -105,11 +111,14 @@ Qed.
 Fixpoint failed (k : nat) : list tev :=
   match k with O => [] | S j => TEnd j false :: TStart j :: TPrep j :: failed j end.
 
+(* oldest first: Prep 0, Start 0, End 0 err, ..., Prep k, Start k [, End k nil | , End k err [, PrepFail (k+1)]];
+   after a failed Setup (the process exits) nothing more *)
 Definition src_history (s : state) : Prop :=
   match src s with
   | SRunning k => src_evs (tr s) = TStart k :: TPrep k :: failed k
   | SSleeping k => src_evs (tr s) = failed (S k)
   | SClosed => exists k, src_evs (tr s) = TEnd k true :: TStart k :: TPrep k :: failed k
+  | SDead => exists k, src_evs (tr s) = TPrepFail (S k) :: failed (S k)
   end.
 
 Lemma src_evs_app a b : src_evs (a ++ b) = src_evs a ++ src_evs b.
@@ -126,17 +135,19 @@ Qed.
 
 Lemma src_history_step nt T s a s' : src_history s -> step nt T s a = Ok s' -> src_history s'.
 Proof.
-  intros Hh Hs. destruct (step_trace nt T s a s' Hs) as (evs & Ht & Hn & Hnil & Herr & Hre).
+  intros Hh Hs. destruct (step_trace nt T s a s' Hs) as (evs & Ht & Hn & Hnil & Herr & Hre & Hsf).
   unfold src_history in *. rewrite Ht, src_evs_app.
   destruct (src_action a) eqn:Ea.
   - destruct a; try discriminate; cbn [step] in Hs.
-    + destruct (src s) as [k| |] eqn:Es; try discriminate.
+    + destruct (src s) as [k| | |] eqn:Es; try discriminate.
       destruct (Hnil k eq_refl eq_refl) as [E1 E2]. rewrite E1, E2. exists k. cbn. now rewrite Hh.
-    + destruct (src s) as [k| |] eqn:Es; try discriminate.
+    + destruct (src s) as [k| | |] eqn:Es; try discriminate.
       destruct (Herr k eq_refl eq_refl) as [E1 E2]. rewrite E1, E2. cbn. now rewrite Hh.
-    + destruct (src s) as [|k|] eqn:Es; try discriminate.
+    + destruct (src s) as [|k| |] eqn:Es; try discriminate.
       destruct (Hre k eq_refl eq_refl) as [E1 E2]. rewrite E1, E2. cbn. now rewrite Hh.
-  - destruct (Hn eq_refl) as [E1 E2]. rewrite E1, E2. exact Hh.
+    + destruct (src s) as [|k| |] eqn:Es; try discriminate.
+      destruct (Hsf k eq_refl eq_refl) as [E1 E2]. rewrite E1, E2. exists k. cbn. now rewrite Hh.
+  - destruct (Hn eq_refl) as (E1 & E2 & _). rewrite E1, E2. exact Hh.
 Qed.
 
 Lemma run_inv_gen (P : state -> Prop) nt T :
@@ -153,6 +164,174 @@ Proof.
   intros [sch Hr]. eapply run_inv_gen; [|apply (src_history_init nt)|exact Hr].
   intros; eapply src_history_step; eassumption.
 Qed.
+
+(* ------------------------------------------------------------------ C18: a failed Setup is the end *)
+(* everything the source or its supervisor stamps *)
+Definition is_source_ev (e : tev) : bool :=
+  match e with TPrep _ | TStart _ | TEnd _ _ | TEmit _ | TPrepFail _ => true | _ => false end.
+(* no source event is newer than a TPrepFail *)
+Fixpoint quiet_after_fail (p : list tev) : bool :=
+  match p with
+  | [] => true
+  | e :: r => (if is_source_ev e then negb (any_prepfail r) else true) && quiet_after_fail r
+  end.
+Definition dead_inv (s : state) : Prop :=
+  quiet_after_fail (tr s) = true /\ (any_prepfail (tr s) = true -> src s = SDead).
+
+Lemma any_prepfail_app a b : any_prepfail (a ++ b) = any_prepfail a || any_prepfail b.
+Proof. unfold any_prepfail, has. apply existsb_app. Qed.
+
+Lemma no_source_evs evs : src_evs evs = [] -> emitted evs = [] -> forallb (fun e => negb (is_source_ev e)) evs = true.
+Proof.
+  induction evs as [|e evs IH]; cbn; auto. intros H1 H2.
+  destruct e; cbn in *; try discriminate; auto.
+Qed.
+
+Lemma quiet_app_nosrc evs p :
+  forallb (fun e => negb (is_source_ev e)) evs = true ->
+  quiet_after_fail (evs ++ p) = quiet_after_fail p /\ any_prepfail (evs ++ p) = any_prepfail p.
+Proof.
+  induction evs as [|e evs IH]; cbn; auto. intros H. apply andb_true_iff in H as [He H].
+  destruct (IH H) as [I1 I2]. rewrite I1. destruct e; cbn in *; try discriminate; auto.
+Qed.
+
+Lemma any_prepfail_setups l : any_prepfail (map TSetup l) = false.
+Proof. induction l; cbn; auto. Qed.
+Lemma quiet_setups l p : quiet_after_fail (map TSetup l ++ p) = quiet_after_fail p.
+Proof. induction l; cbn; auto. Qed.
+
+Lemma dead_inv_init nt : dead_inv (init nt).
+Proof.
+  unfold dead_inv, init; cbn [tr src]. rewrite <- map_rev. split.
+  - cbn. rewrite any_prepfail_app, any_prepfail_setups, quiet_setups. reflexivity.
+  - cbn. rewrite any_prepfail_app, any_prepfail_setups. cbn. discriminate.
+Qed.
+
+Lemma any_prepfail_cons e r :
+  any_prepfail (e :: r) = (match e with TPrepFail _ => true | _ => false end) || any_prepfail r.
+Proof. reflexivity. Qed.
+
+Lemma dead_inv_cons e s s' :
+  dead_inv s -> src s <> SDead -> is_source_ev e = true -> tr s' = e :: tr s ->
+  (match e with TPrepFail _ => src s' = SDead | _ => True end) -> dead_inv s'.
+Proof.
+  intros [Hq Hd] Hl He Ht Hf. assert (Hpf : any_prepfail (tr s) = false).
+  { destruct (any_prepfail (tr s)); auto. exfalso; auto. }
+  unfold dead_inv. rewrite Ht. cbn [quiet_after_fail]. rewrite He, Hpf, Hq, any_prepfail_cons, Hpf.
+  split; [reflexivity|]. destruct e; cbn; auto; discriminate.
+Qed.
+
+Lemma dead_inv_step nt T s a s' : dead_inv s -> step nt T s a = Ok s' -> dead_inv s'.
+Proof.
+  intros Hi Hs. destruct (step_trace nt T s a s' Hs) as (evs & Ht & Hn & Hnil & Herr & Hre & Hsf).
+  destruct (src_action a) eqn:Ea.
+  - destruct a; try discriminate; cbn [step] in Hs.
+    + destruct (src s) as [k| | |] eqn:Es; try discriminate.
+      destruct (Hnil k eq_refl eq_refl) as [E1 E2]. rewrite E2 in Ht.
+      eapply dead_inv_cons; [exact Hi| | |exact Ht|exact I]; [rewrite Es; discriminate|reflexivity].
+    + destruct (src s) as [k| | |] eqn:Es; try discriminate.
+      destruct (Herr k eq_refl eq_refl) as [E1 E2]. rewrite E2 in Ht.
+      eapply dead_inv_cons; [exact Hi| | |exact Ht|exact I]; [rewrite Es; discriminate|reflexivity].
+    + destruct (src s) as [|k| |] eqn:Es; try discriminate.
+      destruct (Hre k eq_refl eq_refl) as [E1 E2]. rewrite E2 in Ht.
+      assert (Hi1 : dead_inv (log s [TPrep (S k)])).
+      { eapply dead_inv_cons; [exact Hi| | |reflexivity|exact I]; [rewrite Es; discriminate|reflexivity]. }
+      eapply dead_inv_cons; [exact Hi1| | |exact Ht|exact I]; [cbn; rewrite Es; discriminate|reflexivity].
+    + destruct (src s) as [|k| |] eqn:Es; try discriminate.
+      destruct (Hsf k eq_refl eq_refl) as [E1 E2]. rewrite E2 in Ht.
+      eapply dead_inv_cons; [exact Hi| | |exact Ht|exact E1]; [rewrite Es; discriminate|reflexivity].
+  - destruct (Hn eq_refl) as (E1 & E2 & [E3|(e & k & -> & Es & ->)]).
+    + destruct Hi as [Hq Hd]. destruct (quiet_app_nosrc evs (tr s) (no_source_evs evs E2 E3)) as [Q1 Q2].
+      unfold dead_inv. rewrite Ht, Q1, Q2, E1. split; assumption.
+    + eapply dead_inv_cons; [exact Hi| | |exact Ht|exact I]; [rewrite Es; discriminate|reflexivity].
+Qed.
+
+Theorem dead_inv_reachable nt T s : reachable nt T s -> dead_inv s.
+Proof.
+  intros [sch Hr]. eapply run_inv_gen; [|apply (dead_inv_init nt)|exact Hr].
+  intros; eapply dead_inv_step; eassumption.
+Qed.
+
+(* every TStart k has its TPrep k earlier (= further down the newest-first trace) *)
+Fixpoint prep_before_start (p : list tev) : bool :=
+  match p with
+  | [] => true
+  | TStart k :: r => prepped k r && prep_before_start r
+  | _ :: r => prep_before_start r
+  end.
+
+Lemma pbs_failed k : prep_before_start (failed k) = true.
+Proof. induction k as [|k IH]; cbn; auto. unfold prepped, has; cbn. now rewrite Nat.eqb_refl, IH. Qed.
+
+Lemma pbs_history s : src_history s -> prep_before_start (src_evs (tr s)) = true.
+Proof.
+  unfold src_history. destruct (src s) as [k|k| |].
+  - intros ->. cbn. unfold prepped, has; cbn. now rewrite Nat.eqb_refl, pbs_failed.
+  - intros ->. apply (pbs_failed (S k)).
+  - intros [k ->]. cbn. unfold prepped, has; cbn. now rewrite Nat.eqb_refl, pbs_failed.
+  - intros [k ->]. apply (pbs_failed (S k)).
+Qed.
+
+Lemma pbs_split x k y : prep_before_start (x ++ TStart k :: y) = true -> prepped k y = true.
+Proof.
+  induction x as [|e x IH]; cbn.
+  - intros H. apply andb_true_iff in H. tauto.
+  - destruct e; auto. intros H. apply andb_true_iff in H as [_ H]. auto.
+Qed.
+
+Lemma prepped_In k y : prepped k y = true -> In (TPrep k) y.
+Proof.
+  unfold prepped, has. intros H. apply existsb_exists in H as (e & Hin & He).
+  destruct e; try discriminate. apply Nat.eqb_eq in He. subst. exact Hin.
+Qed.
+
+Theorem start_needs_prep nt T s : reachable nt T s ->
+  forall a k b, tr s = a ++ TStart k :: b -> In (TPrep k) b.
+Proof.
+  intros HR a k b Ht. pose proof (pbs_history s (source_history_reachable nt T s HR)) as H.
+  rewrite Ht, src_evs_app in H. cbn in H. apply pbs_split, prepped_In in H.
+  unfold src_evs in H. apply filter_In in H. tauto.
+Qed.
+
+Lemma quiet_split a k b :
+  quiet_after_fail (a ++ TPrepFail k :: b) = true -> forall e, In e a -> is_source_ev e = false.
+Proof.
+  induction a as [|x a IH]; cbn; [tauto|]. intros H e [->|Hin].
+  - apply andb_true_iff in H as [H _]. destruct (is_source_ev e); auto.
+    rewrite any_prepfail_app in H. cbn in H. rewrite orb_true_r in H. discriminate.
+  - apply andb_true_iff in H as [_ H]. auto.
+Qed.
+
+(* nothing of the source (Prep, Start, End, Emit, another PrepFail) is newer than a TPrepFail *)
+Theorem nothing_after_prepfail nt T s : reachable nt T s ->
+  forall a k b e, tr s = a ++ TPrepFail k :: b -> In e a -> is_source_ev e = false.
+Proof.
+  intros HR a k b e Ht. destruct (dead_inv_reachable nt T s HR) as [Hq _]. rewrite Ht in Hq.
+  eapply quiet_split. exact Hq.
+Qed.
+
+(* after a failed Setup the process is gone: no action of the source or its supervisor is enabled *)
+Theorem source_dead_is_final nt T s a :
+  src s = SDead -> src_action a = true \/ (exists e, a = SrcEmit e) -> step nt T s a = NotEnabled.
+Proof.
+  intros Hs [Ha|[e Ha]]; [destruct a; try discriminate|subst a]; cbn [step]; rewrite Hs; reflexivity.
+Qed.
+
+(* non-vacuity: a run that reaches SDead; its trace passes the observable specification *)
+Definition sf_net : net :=
+  [{| nid := 1; nkind := KSync; nworkers := 1; ncap := 1; ndisc := false; nkids := []; nhandler := None; nrole := RRoot |}].
+Definition sf_sched : list action := [SrcEmit 1%Z; MainSend; SrcReturnErr; SrcSetupFail].
+
+Example setup_fail_run :
+  exists s, run sf_net 1 (init sf_net) sf_sched = Ok s /\ src s = SDead
+            /\ tr s = [TPrepFail 1; TEnd 0 false; TEmit 1%Z; TStart 0; TSetup 0; TPrep 0]
+            /\ trace_ok sf_net (tr s) = [].
+Proof. eexists. split; [vm_compute; reflexivity|]. repeat split; vm_compute; reflexivity. Qed.
+
+(* the wrong behaviour — starting the source whose Setup failed — is rejected by the specification *)
+Example start_after_prepfail_rejected :
+  trace_ok sf_net [TStart 1; TPrepFail 1; TEnd 0 false; TEmit 1%Z; TStart 0; TSetup 0; TPrep 0] = [(18, 3); (18, 7)].
+Proof. vm_compute. reflexivity. Qed.
 
 (* a nil return ends the run of the source: nothing of the supervisor is enabled any more *)
 Theorem source_closed_is_final nt T s a :
@@ -317,6 +496,7 @@ Proof.
         destruct o as [es|err|]; cbn in Ed; try discriminate.
     + rewrite (Hdummy n Hn) in Hs. cbn in Hs. discriminate.
   - rewrite Hcb in Hs. destruct i; discriminate.
+  - rewrite Hsrc in Hs; discriminate.
 Qed.
 
 Lemma f9_stuck_forever T : forall sch s s',
